@@ -22,7 +22,7 @@ KINDS = {"query_value", "read_value", "reader_during_session", "session_with_liv
 
 
 def probe(bd):
-    p = vp.run([os.path.join(bd, "eng_phase"), "--mode", "probe"], timeout=120)
+    p = vp.run_subject([os.path.join(bd, "eng_phase"), "--mode", "probe"], timeout=120)
     return p.stdout.strip().splitlines()[-1]
 
 
@@ -77,11 +77,11 @@ CHECK_DEADLOCK FALSE
         for s in chosen + big:
             f.write(json.dumps(s) + "\n")
     tr = os.path.join(wd, "sched.ndjson")
-    vp.run([os.path.join(bd, "eng_phase"), "--mode", "schedules", "--in", sin, "--out", tr], timeout=3000)
+    vp.run_subject([os.path.join(bd, "eng_phase"), "--mode", "schedules", "--in", sin, "--out", tr], timeout=3000)
     traces = [(tr, "schedule replay")]
     for i, readers in enumerate((2, 5, 12) if quick else (2, 3, 5, 8, 12, 15)):
         ts = os.path.join(wd, f"stress_{i}.ndjson")
-        vp.run([os.path.join(bd, "eng_phase"), "--mode", "stress", "--readers", str(readers),
+        vp.run_subject([os.path.join(bd, "eng_phase"), "--mode", "stress", "--readers", str(readers),
                 "--millis", "400" if quick else "1500", "--rounds", "2", "--seed", str(seed + i),
                 "--out", ts], timeout=600)
         traces.append((ts, f"stress readers={readers}"))
@@ -148,7 +148,7 @@ def replay(path):
     sin = os.path.join(wd, "s.ndjson")
     open(sin, "w").write(json.dumps(rp["schedule"]) + "\n")
     tr = os.path.join(wd, "t.ndjson")
-    vp.run([os.path.join(bd, "eng_phase"), "--mode", "schedules", "--in", sin, "--out", tr], timeout=300)
+    vp.run_subject([os.path.join(bd, "eng_phase"), "--mode", "schedules", "--in", sin, "--out", tr], timeout=300)
     res, _ = ec.validate(tr, tr + ".result.json")
     bad = [v for v in res["viol"] if v["kind"] in KINDS]
     if bad:
@@ -170,7 +170,7 @@ def selftest(seed):
     ok1 = "ReaderSeesSnap" in mc["invariant_violated"]
     print(f"selftest {PID}: model with bump-before-lock violates ReaderSeesSnap: {ok1}")
     ts = os.path.join(wd, "s.ndjson")
-    vp.run([os.path.join(bd, "eng_phase"), "--mode", "stress", "--readers", "2", "--millis", "100",
+    vp.run_subject([os.path.join(bd, "eng_phase"), "--mode", "stress", "--readers", "2", "--millis", "100",
             "--rounds", "1", "--out", ts], timeout=120)
     ev = vp.read_ndjson(ts)
     done = False
